@@ -521,7 +521,13 @@ def R3_yens(ctx):
     # (a loop that inserts under a guard, or cut_edges.extend(accepted.iter().filter(..).filter_map(..).map(..)))
     cuts = [c for c in b.calls() if c.callee and c.callee.startswith("std::collections::HashSet::<T, S, A>::insert")]
     exts = [c for c in b.calls() if c.callee and re.search(r"Extend<.*>>::extend$", c.callee) and "HashSet" in b.locals[root_local(b, c.args[0])]["ty"]] if not cuts else []
-    okc = len(cuts) + len(exts) == 1
+    coll = None
+    if not cuts and not exts:
+        # the set is the collected chain itself: accepted.iter().filter(..).filter_map(|p| p.get(spur_idx + 1)).map(|e| e.edge_id).collect()
+        for c in b.calls():
+            if c.callee and c.callee.endswith("EdgeCutFrontierModel::new"):
+                coll = tm.operand(c.args[1], c.bb)
+    okc = len(cuts) + len(exts) == 1 or coll is not None
     if okc:
         gets = []
         if cuts:
@@ -529,7 +535,7 @@ def R3_yens(ctx):
             gets = [x for x in calls_in(v) if x[1] == "std::slice::<impl [T]>::get"]
             okc = contains(clean(v), lambda q: q[0] == "field" and q[2] == "edge_id")
         else:
-            base, steps = chain_steps(F, tm.operand(exts[0].args[1], exts[0].bb))
+            base, steps = chain_steps(F, coll if coll is not None else tm.operand(exts[0].args[1], exts[0].bb))
             names = [n for n, _ in steps]
             okc = not [n for n in names if n in ("take", "skip", "step_by", "rev", "take_while", "skip_while")]
             vals = [v_ for _, v_ in steps if v_ is not None]
@@ -625,4 +631,10 @@ def R5_spur_route(ctx):
     spur_route_rule(ctx, "C13.R5")
 
 
-RULES = [R1_similarity, R2_single_via, R2b_loop_test, R2c_reorient, R3_yens, R4_criteria, R5_spur_route]
+def R6_destination_state(ctx):
+    """C13.R6 = C03.R9: every returned route of an edge-oriented k-shortest-paths query ends with the state of that same route"""
+    from props.C03 import R9_synthetic_destination_state
+    R9_synthetic_destination_state(ctx)
+
+
+RULES = [R1_similarity, R2_single_via, R2b_loop_test, R2c_reorient, R3_yens, R4_criteria, R5_spur_route, R6_destination_state]
